@@ -323,6 +323,20 @@ def compare(obs, got, ref, mech, what, tol, **data):
     return err / scale, scale - 1 > 1e-8
 
 
+def guard_exc(obs, prefix, e, **data):
+    """an exception in a monitored block refutes the property only if it was raised in xitorch or by torch on xitorch's
+    output; anything raised by the monitor's own code is a monitor bug"""
+    import traceback
+    from vf.common import last_repo_frame
+    if isinstance(e, HarnessBug):
+        raise e
+    if last_repo_frame(e.__traceback__) is None:
+        frames = traceback.extract_tb(e.__traceback__)
+        if not (frames and "/torch/" in frames[-1].filename):
+            raise HarnessBug("%s: %s" % (type(e).__name__, e)) from e
+    obs.exc_violation(prefix, e, **data)
+
+
 def grads(L, leaves, create_graph):
     if not (isinstance(L, torch.Tensor) and L.requires_grad):
         return [None] * len(leaves)
@@ -390,7 +404,7 @@ def run_ops(desc):
         try:
             res = call_builder(obs, prob, is_hess, idxs)
         except Exception as e:
-            obs.exc_violation("construct:%s:%s:%s" % (tag, kind, desc["idxs"]), e, idxs=str(idxs))
+            guard_exc(obs, "construct:%s:%s:%s" % (tag, kind, desc["idxs"]), e, idxs=str(idxs))
             obs.nontrivial = True
             return obs.result()
     if desc["idxs"] == "int":
@@ -431,7 +445,7 @@ def run_ops(desc):
             try:
                 got = product(op, pname, v, u, V, U)
             except Exception as e:
-                obs.exc_violation("prod:%s:%s:%s" % (tag, pname, kind), e, **data)
+                guard_exc(obs, "prod:%s:%s:%s" % (tag, pname, kind), e, **data)
                 continue
             ref = product_ref(Jd, pname, v, u, V, U)
             e, nz = compare(obs, got, ref, "prod:%s:%s:%s" % (tag, pname, kind), "%s of the %s operator" % (pname, tag), VTOL, **data)
@@ -443,15 +457,17 @@ def run_ops(desc):
             asym = float((fm - fm.transpose(-2, -1)).abs().max())
             obs.check(asym <= VTOL * (1 + float(fm.abs().max())), "hess:symmetry", "fullmatrix of the Hessian is not symmetric: %.3e" % asym, **data)
         # products without grad mode (cached graph must still be usable)
+        ref_mv, ref_rmv = product_ref(Jd, "mv", v, u, V, U), product_ref(Jd, "rmv", v, u, V, U)
         with torch.no_grad():
             try:
-                got = op.mv(v)
-                compare(obs, got, product_ref(Jd, "mv", v, u, V, U), "prod_nograd:%s:mv:%s" % (tag, kind), "mv under no_grad", VTOL, **data)
-                got = op.rmv(u)
-                compare(obs, got, product_ref(Jd, "rmv", v, u, V, U), "prod_nograd:%s:rmv:%s" % (tag, kind), "rmv under no_grad", VTOL, **data)
-                obs.count("products_compared", 2)
+                got_mv, got_rmv = op.mv(v), op.rmv(u)
             except Exception as e:
-                obs.exc_violation("prod_nograd:%s:%s" % (tag, kind), e, **data)
+                got_mv = None
+                guard_exc(obs, "prod_nograd:%s:%s" % (tag, kind), e, **data)
+        if got_mv is not None:
+            compare(obs, got_mv, ref_mv, "prod_nograd:%s:mv:%s" % (tag, kind), "mv under no_grad", VTOL, **data)
+            compare(obs, got_rmv, ref_rmv, "prod_nograd:%s:rmv:%s" % (tag, kind), "rmv under no_grad", VTOL, **data)
+            obs.count("products_compared", 2)
         if k != dsel:
             continue
         # ---- differentiability of one product w.r.t. the point, the other arguments, the parameters and the vector
@@ -461,29 +477,29 @@ def run_ops(desc):
         tensors = [prob.leaves[n] for n in names] + [v, u, V, U]
         names = names + ["vec_v", "vec_u", "mat_V", "mat_U"]
         rolefn = lambda nm: "vec" if nm[:3] in ("vec", "mat") else prob.role(nm, name)
+        ref = product_ref(Jd, pname, v, u, V, U)
+        C = rand_like_shape(tuple(ref.shape), tgen)
+        Ds = [rand_like_shape(tuple(t.shape), tgen) for t in tensors]
+        r1 = grads((ref * C).sum(), tensors, True)
+        Sr = sum((gi * di).sum() for gi, di in zip(r1, Ds) if gi is not None and gi.requires_grad)
+        r2 = grads(Sr, tensors, False)
         try:
             got = product(op, pname, v, u, V, U)
-            ref = product_ref(Jd, pname, v, u, V, U)
-            C = rand_like_shape(tuple(ref.shape), tgen)
-            L, Lr = (got * C).sum(), (ref * C).sum()
-            g1 = grads(L, tensors, True)
-            r1 = grads(Lr, tensors, True)
-            e, nz = compare_grads(obs, g1, r1, names, tensors, rolefn, "grad:%s:%s:%s" % (tag, pname, kind), "first", data)
-            worst_g = max(worst_g, e)
-            grad_nonzero = grad_nonzero or nz
-            obs.count("grad_compared_first")
-            Ds = [rand_like_shape(tuple(t.shape), tgen) for t in tensors]
+            if not isinstance(got, torch.Tensor) or tuple(got.shape) != tuple(ref.shape):
+                continue            # already reported by the value checks
+            g1 = grads((got * C).sum(), tensors, True)
             S = sum((gi * di).sum() for gi, di in zip(g1, Ds) if gi is not None and gi.requires_grad)
-            Sr = sum((gi * di).sum() for gi, di in zip(r1, Ds) if gi is not None and gi.requires_grad)
             g2 = grads(S, tensors, False)
-            r2 = grads(Sr, tensors, False)
-            e, nz = compare_grads(obs, g2, r2, names, tensors, rolefn, "grad:%s:%s:%s" % (tag, pname, kind), "second", data)
-            worst_g = max(worst_g, e)
-            obs.count("grad_compared_second")
-        except HarnessBug:
-            raise
         except Exception as e:
-            obs.exc_violation("grad:%s:%s:%s" % (tag, pname, kind), e, **data)
+            guard_exc(obs, "grad:%s:%s:%s" % (tag, pname, kind), e, **data)
+            continue
+        e, nz = compare_grads(obs, g1, r1, names, tensors, rolefn, "grad:%s:%s:%s" % (tag, pname, kind), "first", data)
+        worst_g = max(worst_g, e)
+        grad_nonzero = grad_nonzero or nz
+        obs.count("grad_compared_first")
+        e, nz = compare_grads(obs, g2, r2, names, tensors, rolefn, "grad:%s:%s:%s" % (tag, pname, kind), "second", data)
+        worst_g = max(worst_g, e)
+        obs.count("grad_compared_second")
     obs.note(n_ops=len(ops), value_relerr=worst_v, grad_relerr=worst_g, fcn_calls=prob.ncalls)
     obs.count("function_calls", prob.ncalls)
     obs.nontrivial = any_nonzero and grad_nonzero and any(o.shape[0] * o.shape[1] >= 2 for o in ops)
@@ -504,15 +520,22 @@ def run_subst(desc):
     name = prob.leaf_of(idx)
     via = desc["via"]
     data = dict(kind=kind, idx=idx, via=via, which=desc["which"], tag=tag)
+    import xitorch
     with WarnLog():
         try:
             op0 = call_builder(obs, prob, is_hess, idx)
-            A = op0.H if via == "H" else op0
-            ps = list(A.getlinopparams())
+            ok = isinstance(op0, xitorch.LinearOperator)
+            if ok:
+                A = op0.H if via == "H" else op0
+                ps = list(A.getlinopparams())
         except Exception as e:
-            obs.exc_violation("construct:%s:%s:subst" % (tag, kind), e, **data)
+            guard_exc(obs, "construct:%s:%s:subst" % (tag, kind), e, **data)
             obs.nontrivial = True
             return obs.result()
+    if not ok:
+        obs.violation("ret_type:%s:int" % tag, "idxs=%d returned %s instead of one LinearOperator" % (idx, type(op0).__name__), **data)
+        obs.nontrivial = True
+        return obs.result()
     obs.count("operators_checked")
     # which leaf is each operator parameter?
     pnames = []
@@ -538,25 +561,28 @@ def run_subst(desc):
         Jd = prob.dense(name, values, hess=is_hess)
         return Jd.transpose(-2, -1) if transposed else Jd
 
-    def check_products(values, label, count_name):
-        Ad = dense_A(values)
+    LABEL = {"during": "while other tensors are substituted through uselinopparams",
+             "restored": "after the original tensors were restored", "before": "before any substitution"}
+
+    def check_products(Ad, label, count_name):
+        refs = {pname: product_ref(Ad, pname, v, u, V, U) for pname in PR}
         nzz = False
         for pname in PR:
+            mech = "subst:%s:%s:%s:%s:%s" % (label, tag, via, pname, kind)
             try:
                 got = product(A, pname, v, u, V, U)
             except Exception as e:
-                obs.exc_violation("subst:%s:%s:%s:%s:%s" % (label, tag, via, pname, kind), e, **data)
+                guard_exc(obs, mech, e, **data)
                 continue
-            e, nz = compare(obs, got, product_ref(Ad, pname, v, u, V, U), "subst:%s:%s:%s:%s:%s" % (label, tag, via, pname, kind),
-                            "%s %s" % (pname, {"during": "while other tensors are substituted through uselinopparams",
-                                                "restored": "after the original tensors were restored",
-                                                "before": "before any substitution"}[label]), VTOL, **data)
+            e, nz = compare(obs, got, refs[pname], mech, "%s %s" % (pname, LABEL[label]), VTOL, **data)
             nzz = nzz or nz
             obs.count(count_name)
         return nzz
-    nz0 = check_products({}, "before", "products_compared")
+    A_orig = dense_A({})
+    nz0 = check_products(A_orig, "before", "products_compared")
     nontriv_grad = False
     ncalls0 = prob.ncalls
+    rolefn = lambda nm: prob.role(nm, name)
     for rnd in range(2):
         new, values = [], {}
         for p, pn in zip(ps, pnames):
@@ -569,39 +595,39 @@ def run_subst(desc):
             else:
                 t = p
             new.append(t)
-        uses_obj = any(prob.role(pn, name) == "objparam" for pn in values)
-        if uses_obj:
+        if any(prob.role(pn, name) == "objparam" for pn in values):
             obs.count("subst_objparam_cases")
+        # reference at the substituted tensors, with its derivatives w.r.t. them (what solve's backward asks the operator for)
+        A_new = dense_A(values)
+        pname = desc["dprod"]
+        ref = product_ref(A_new, pname, v, u, V, U)
+        C = rand_like_shape(tuple(ref.shape), tgen)
+        vn = list(values.keys())
+        vt = [values[k] for k in vn]
+        Ds = [rand_like_shape(tuple(t.shape), tgen) for t in vt]
+        r1 = grads((ref * C).sum(), vt, True)
+        Sr = sum((gi * di).sum() for gi, di in zip(r1, Ds) if gi is not None and gi.requires_grad)
+        r2 = grads(Sr, vt, False)
+        g1 = g2 = None
         try:
             with A.uselinopparams(*new):
-                check_products(values, "during", "subst_products_compared")
-                # derivative of one product w.r.t. the substituted tensors (what solve's backward asks for)
-                pname = desc["dprod"]
+                check_products(A_new, "during", "subst_products_compared")
                 got = product(A, pname, v, u, V, U)
-                ref = product_ref(dense_A(values), pname, v, u, V, U)
-                C = rand_like_shape(tuple(ref.shape), tgen)
-                vn = list(values.keys())
-                vt = [values[k] for k in vn]
-                g1 = grads((got * C).sum(), vt, True)
-                r1 = grads((ref * C).sum(), vt, True)
-                rolefn = lambda nm: prob.role(nm, name)
-                e, nz = compare_grads(obs, g1, r1, vn, vt, rolefn, "subst_grad:%s:%s:%s:%s" % (tag, via, pname, kind), "first", data)
-                nontriv_grad = nontriv_grad or nz
-                Ds = [rand_like_shape(tuple(t.shape), tgen) for t in vt]
-                S = sum((gi * di).sum() for gi, di in zip(g1, Ds) if gi is not None and gi.requires_grad)
-                Sr = sum((gi * di).sum() for gi, di in zip(r1, Ds) if gi is not None and gi.requires_grad)
-                g2 = grads(S, vt, False)
-                r2 = grads(Sr, vt, False)
-                compare_grads(obs, g2, r2, vn, vt, rolefn, "subst_grad:%s:%s:%s:%s" % (tag, via, pname, kind), "second", data)
-                obs.count("subst_grad_compared")
-        except HarnessBug:
-            raise
+                if isinstance(got, torch.Tensor) and tuple(got.shape) == tuple(ref.shape):
+                    g1 = grads((got * C).sum(), vt, True)
+                    S = sum((gi * di).sum() for gi, di in zip(g1, Ds) if gi is not None and gi.requires_grad)
+                    g2 = grads(S, vt, False)
         except Exception as e:
-            obs.exc_violation("subst:during:%s:%s:%s" % (tag, via, kind), e, **data)
+            guard_exc(obs, "subst:during:%s:%s:%s" % (tag, via, kind), e, **data)
             obs.nontrivial = True
             return obs.result()
+        if g1 is not None:
+            e, nz = compare_grads(obs, g1, r1, vn, vt, rolefn, "subst_grad:%s:%s:%s:%s" % (tag, via, pname, kind), "first", data)
+            nontriv_grad = nontriv_grad or nz
+            compare_grads(obs, g2, r2, vn, vt, rolefn, "subst_grad:%s:%s:%s:%s" % (tag, via, pname, kind), "second", data)
+            obs.count("subst_grad_compared")
         # ---- restoration: original values again, the operator and the object hold the original tensor objects
-        check_products({}, "restored", "products_compared")
+        check_products(A_orig, "restored", "products_compared")
         after = list(A.getlinopparams())
         same = len(after) == len(ps) and all(a is b for a, b in zip(after, ps))
         obs.check(same, "subst:restore_identity:%s:%s" % (tag, kind), "after uselinopparams the operator does not hold its original tensors", **data)
@@ -643,17 +669,17 @@ def run_badidx(desc):
               "idxs=%s points at a %s; expected TypeError, got %s" % (idxs, what, outcome), kind=prob.kind)
     obs.count("typeerror_cases")
     # the same call with the differentiable index alone must work (the rejection is about the index, not the function)
+    Jd = prob.dense(prob.leaf_of(good), hess=is_hess)
+    fm = None
     try:
-        op = call_builder(obs, prob, is_hess, good)
-        name = prob.leaf_of(good)
-        Jd = prob.dense(name, hess=is_hess)
-        compare(obs, op.fullmatrix(), Jd, "prod:%s:fullmatrix:%s" % (tag, prob.kind), "fullmatrix", VTOL)
+        with WarnLog():
+            fm = call_builder(obs, prob, is_hess, good).fullmatrix()
+    except Exception as e:
+        guard_exc(obs, "construct:%s:%s:int" % (tag, prob.kind), e)
+    if fm is not None:
+        compare(obs, fm, Jd, "prod:%s:fullmatrix:%s" % (tag, prob.kind), "fullmatrix", VTOL)
         obs.count("products_compared")
         obs.count("operators_checked")
-    except HarnessBug:
-        raise
-    except Exception as e:
-        obs.exc_violation("construct:%s:%s:int" % (tag, prob.kind), e)
     obs.nontrivial = True
     return obs.result()
 
@@ -679,25 +705,29 @@ def run_zero(desc):
     else:
         idxs, pick = (1 if ignore is not None else 0), None
     vb = VBATCH[desc["vb"]]
+    name = prob.leaf_of(1 if ignore is not None else 0)
+    Jd = prob.dense(name, hess=is_hess)
+    if float(Jd.detach().abs().max()) != 0.0:
+        raise HarnessBug("zero-block case has a non-zero dense reference")
+    nout, nin = Jd.shape
+    v, u, V, U = make_vectors(nout, nin, vb, 2, tgen)
+    PZ = ["mv", "rmv", "mm", "rmm", "fullmatrix", "H.mv"]
+    got = {}
     try:
         with WarnLog():
             res = call_builder(obs, prob, is_hess, idxs)
-        op = res[pick] if pick is not None else res
-        name = prob.leaf_of(1 if ignore is not None else 0)
-        Jd = prob.dense(name, hess=is_hess)
-        if float(Jd.detach().abs().max()) != 0.0:
-            raise HarnessBug("zero-block case has a non-zero dense reference")
-        nout, nin = Jd.shape
-        obs.check(tuple(op.shape) == (nout, nin), "zero_block:%s:shape" % tag, "operator shape %s, expected (%d, %d)" % (tuple(op.shape), nout, nin))
-        v, u, V, U = make_vectors(nout, nin, vb, 2, tgen)
-        for pname in ["mv", "rmv", "mm", "rmm", "fullmatrix", "H.mv"]:
-            got = product(op, pname, v, u, V, U)
-            compare(obs, got, product_ref(Jd, pname, v, u, V, U), "zero_block:%s:%s:prod:%s" % (tag, variant, pname), pname, VTOL)
-            obs.count("products_compared")
-        obs.count("operators_checked")
-    except HarnessBug:
-        raise
+            op = res[pick] if pick is not None else res
+            shape = tuple(op.shape)
+            for pname in PZ:
+                got[pname] = product(op, pname, v, u, V, U)
     except Exception as e:
-        obs.exc_violation("zero_block:%s:%s" % (tag, variant), e, kind=prob.kind)
+        guard_exc(obs, "zero_block:%s:%s" % (tag, variant), e, kind=prob.kind)
+        obs.nontrivial = True
+        return obs.result()
+    obs.check(shape == (nout, nin), "zero_block:%s:shape" % tag, "operator shape %s, expected (%d, %d)" % (shape, nout, nin))
+    for pname in PZ:
+        compare(obs, got[pname], product_ref(Jd, pname, v, u, V, U), "zero_block:%s:%s:prod:%s" % (tag, variant, pname), pname, VTOL)
+        obs.count("products_compared")
+    obs.count("operators_checked")
     obs.nontrivial = True
     return obs.result()
